@@ -15,7 +15,7 @@ META = {
         'quick': 'star environments: centre in {B, C, N, O, F, Si, P, S, Cl, Br, I, Se}, charge -1..1, radical flag, 0..3 '
                  'neighbours over orders {1,2,3} x {H, C, N, O, F}; aromatic carbon / hetero-atom cases; organic-subset '
                  'models with and without radicals',
-        'thorough': 'adds As, Al, Fe, Cu, Zn, H, Li, Mg as centres; charge -2..2; up to 4 neighbours from {H, C, N, O, F} '
+        'thorough': 'adds As, Al, Fe, Cu, Zn, Li, Mg as centres; charge -2..2; up to 4 neighbours from {H, C, N, O, F} '
                     '(one centre with 7 neighbour elements took 21 core-minutes: the wider set is outside what is run)',
     },
     'outside_claim': ['more than 4 neighbours; neighbours outside the listed classes (exception environments naming other '
@@ -245,7 +245,7 @@ def jobs(tier):
     T = tier == 'thorough'
     centres = ['B', 'C', 'N', 'O', 'F', 'Si', 'P', 'S', 'Cl', 'Br', 'I', 'Se']
     if T:
-        centres += ['As', 'Al', 'Fe', 'Cu', 'Zn', 'H', 'Li', 'Mg']
+        centres += ['As', 'Al', 'Fe', 'Cu', 'Zn', 'Li', 'Mg']
     J = []
     for c in centres:
         J.append({'harness': 'star', 'params': {'centre': c, 'kmax': 4 if T else 3, 'cmax': 2 if T else 1,
